@@ -105,6 +105,35 @@ func vfloatfmt(args []string) error {
 		}
 		return o
 	}
+	// short decimals: values whose shortest form has 1..17 significant digits (what people write), every decimal exponent that
+	// keeps them in plain format and some beyond, last digit biased towards 1 and 9, both signs
+	{
+		per := *n/400 + 20
+		for D := 1; D <= 17; D++ {
+			for k := 0; k < per; k++ {
+				dg := make([]byte, D)
+				for j := range dg {
+					dg[j] = byte('0' + r.Intn(10))
+				}
+				if dg[0] == '0' {
+					dg[0] = byte('1' + r.Intn(9))
+				}
+				switch k % 3 {
+				case 0:
+					dg[D-1] = '1'
+				case 1:
+					dg[D-1] = '9'
+				}
+				e := r.Intn(44) - 26
+				if f, perr := strconv.ParseFloat(string(dg)+"e"+strconv.Itoa(e), 64); perr == nil {
+					if k%5 == 0 {
+						f = -f
+					}
+					vals = append(vals, f)
+				}
+			}
+		}
+	}
 	pj, err := run.Parse([]byte("[0.5]"), run.Cfg{AVX512: run.HasAVX512, Copy: true}, nil)
 	if err != nil {
 		return err
